@@ -53,6 +53,12 @@ def one(rec, hub, seed, tier, i):
             # and a second stock of the other kind that shares the lifetime-model instance
             other = dsm.make_stock(fd, cfg, "InflowDrivenDSM", lm=s.lifetime_model, inflow=np.abs(np.asarray(s.inflow.values, dtype=float)))
             other.compute()
+        if hasattr(s, "lifetime_model") and rng.random() < 0.25:
+            # the same object once more with a driver that is zero everywhere (a scenario without the product): every result,
+            # the cohort tables included, is that of an empty stock
+            drv = s.stock if type(s).__name__ == "StockDrivenDSM" else s.inflow
+            drv.values[...] = 0
+            s.compute()
         if hasattr(s, "lifetime_model") and rng.random() < 0.4:
             # same objects, other parameters: the identities must hold for the recomputed stock as well
             lm = s.lifetime_model
